@@ -60,7 +60,10 @@ Definition p_decl_type_args : fprog :=
            FDDef (mkfdef "main" [] FI64 (FLit 0))].
 Lemma decl_type_args_ill_typed : has_type_b p_decl_type_args = false.
 Proof. vm_compute. reflexivity. Qed.
-Lemma decl_type_args_accepted : exists q, check p_decl_type_args = COk q.
+(* rejected since fix <commit15>; accepted by the code before it *)
+Lemma decl_type_args_rejected : check p_decl_type_args = CErr EWrongNumberOfTypeArguments.
+Proof. vm_compute. reflexivity. Qed.
+Lemma decl_type_args_accepted_before_fix : exists q, old_check_decls p_decl_type_args = COk q.
 Proof. eexists. vm_compute. reflexivity. Qed.
 
 (* corpus/fun/c15-ill-accepted-decl-unknown-type.sc *)
@@ -74,7 +77,9 @@ Definition p_decl_unknown_type : fprog :=
            FDDef (mkfdef "main" [] FI64 (FCall "isEmpty" [FCtor "Nil" [] None] None))].
 Lemma decl_unknown_type_ill_typed : has_type_b p_decl_unknown_type = false.
 Proof. vm_compute. reflexivity. Qed.
-Lemma decl_unknown_type_accepted : exists q, check p_decl_unknown_type = COk q.
+Lemma decl_unknown_type_rejected : check p_decl_unknown_type = CErr EUndefined.
+Proof. vm_compute. reflexivity. Qed.
+Lemma decl_unknown_type_accepted_before_fix : exists q, old_check_decls p_decl_unknown_type = COk q.
 Proof. eexists. vm_compute. reflexivity. Qed.
 
 (* corpus/fun/c15-ill-accepted-param-applied.sc:  data Box[A] { B(x: A[i64, i64]) } … *)
@@ -85,14 +90,17 @@ Definition p_param_applied : fprog :=
            FDDef (mkfdef "main" [] FI64 (FCall "unbox" [FCtor "B" [FLit 1] None] None))].
 Lemma param_applied_ill_typed : has_type_b p_param_applied = false.
 Proof. vm_compute. reflexivity. Qed.
-Lemma param_applied_accepted : exists q, check p_param_applied = COk q.
+Lemma param_applied_rejected : check p_param_applied = CErr EWrongNumberOfTypeArguments.
+Proof. vm_compute. reflexivity. Qed.
+Lemma param_applied_accepted_before_fix : exists q, old_check_decls p_param_applied = COk q.
 Proof. eexists. vm_compute. reflexivity. Qed.
 
-(* soundness, full statement: false of the model of the checker as it is *)
-Lemma check_sound_refuted_lemma :
-  ~ (forall p q, check p = COk q -> has_type p).
+(* regression: soundness, full statement, was false of the checker before fix <commit15> (declaration types
+   checked by head name only) *)
+Lemma old_check_decls_unsound :
+  ~ (forall p q, old_check_decls p = COk q -> has_type p).
 Proof.
-  intro H. destruct decl_type_args_accepted as [q Hq].
+  intro H. destruct decl_type_args_accepted_before_fix as [q Hq].
   specialize (H _ _ Hq). unfold has_type in H. rewrite decl_type_args_ill_typed in H. discriminate.
 Qed.
 (* regression: without the line added by fix d524b1f the model is incomplete and order-dependent *)
